@@ -125,7 +125,7 @@ fn seed_for(d: usize, rng: &mut Rng) -> Vec<u8> {
         11 | 12 => {
             let doc = c14::gen_doc(rng, d == 11);
             let p = c14::Present { bin: *rng.pick(&[c14::Bin::Array, c14::Bin::Url, c14::Bin::StdPad]), num: *rng.pick(&[c14::Num::Number, c14::Num::Str, c14::Num::Float]), unknown_members: rng.bool(), unknown_enums: rng.bool(), aliases: rng.bool() };
-            c14::render(&doc, &p, rng).to_string().into_bytes()
+            c14::finish_text(c14::render(&doc, &p, rng).to_string()).into_bytes()
         }
         13 => {
             let s = &emitted_samples().0;
